@@ -57,8 +57,8 @@ static void prop_equiv_relaxation(Tape &t, Ctx &c) {
 
 static std::vector<Prop> props() {
     return {
-        Prop("equiv_coarsening", prop_equiv_coarsening, 300, 4000, 100, 80, {1}, 4, 8),
-        Prop("equiv_relaxation", prop_equiv_relaxation, 450, 6000, 100, 80, {1}, 4, 8),
+        Prop("equiv_coarsening", prop_equiv_coarsening, 300, 4000, 100, 4, {1}, 4, 8),
+        Prop("equiv_relaxation", prop_equiv_relaxation, 450, 6000, 100, 4, {1}, 4, 8),
     };
 }
 static std::vector<Enum> enums() { return {}; }
